@@ -356,7 +356,14 @@ func sampleScalar(t reflect.Type, k int) reflect.Value {
 	v := reflect.New(t).Elem()
 	switch {
 	case t == timeType:
-		v.Set(reflect.ValueOf(sampleTime.Add(time.Duration(k) * time.Hour)))
+		switch k % 5 {
+		case 3:
+			v.Set(reflect.ValueOf(time.Unix(-62135596800, 0))) // 0001-01-01T00:00:00Z: an instant like any other (Go's zero time)
+		case 4:
+			v.Set(reflect.ValueOf(time.Unix(-1, 0))) // one second before 1970
+		default:
+			v.Set(reflect.ValueOf(sampleTime.Add(time.Duration(k) * time.Hour)))
+		}
 	case t == durType:
 		// intervals are unsigned 32-bit seconds: the boundaries of the signed range are ordinary values
 		secs := []int64{int64(3600 + k), 1 << 31, 1<<32 - 1, 1<<31 - 1}[k%4]
